@@ -296,6 +296,7 @@ pub fn property() -> Property {
         id: "C09",
         rule: "Programs from the grammar (terminating and non-terminating: unguarded backward GOTOs, loops re-entered, recursion to the cap), a DEF-free sub-family, and single lines of 5-60 statements with long IF / REM / DATA tails, run with tracing on. Per executing host call (RUN, continue, CONT): all Trace records name one line and number at most 1 + (IF statements on that line); at most one Print record and one REENTER/EXTRA IGNORED notice; providing a reply executes nothing; the call returns Idle/Running/AwaitingInput. Once per run the host breaks in after a generated number of calls: the interpreter must go Idle with exactly one BREAK notice naming a program line and CONT must resume. For finished runs the number of executing calls must be >= the number of top-level statements the reference interpreter executed. For DEF-free programs each continue call may read the token cursor at most 12 x (tokens on the current line + 2) times (hook counter; linear in line length, calibrated 2x above the observed maximum reported as max_reads_per_token). Non-trivial: >= 20 executing calls over a program with a line of >= 3 statements; distinct by program text.",
         assumptions: vec!["work is measured as token-cursor reads (Program::peek_next_token), not time"],
+        fuzz: None,
         families,
         prelude: None,
         epilogue: Some(Box::new(|_, rec| {
